@@ -7,7 +7,7 @@ from .c05 import corpus_requests
 
 RULE = ("generated VCD files (several changes per time step = delta groups, gaps between table entries, first timestamp > 0, vectors of 63..200 bits) are loaded by the real pywellen extension module "
         "under CPython (built from /repo with cargo) and by the Rust API (harness `pydump`); for every variable the Python side reports all_changes(), value_at_idx(i) for "
-        "i = 0..len+1, value_at_time(t) for t = entry-1, entry, entry+1 of every table entry, 0 and max+10, and time_table[-1], [0], [len], [-len]. The Lean model of the binding "
+        "i = 0..len+1, value_at_time(t) for t = entry-1, entry, entry+1 of every table entry, 0 and max+10, and time_table[i] for i = -1, 0, len, -len, every i in -len-3..len+2, -2len-7 and ±1000000. The Lean model of the binding "
         "(on top of the get_offset model) and the latest-at-or-before specification are evaluated on the Rust-side change list. non-trivial = the variable has a change; "
         "distinct = distinct (request, reply)")
 
